@@ -10,7 +10,7 @@ def run(ctx):
     if exe is None:
         raise vlib.CheckError("harness build failed:\n" + log[-3000:])
     big = ctx.tier == "thorough"
-    res = sharded_pipeline(ctx, exe, mcheck, shards=24 if big else 4, scen=110 if big else 60, steps=70 if big else 50)
+    res = sharded_pipeline(ctx, exe, mcheck, shards=24 if big else 4, scen=80 if big else 60, steps=70 if big else 50)
     cross_check_in_coq(ctx, 60 if big else 12)
     vlib.judge(ctx, res, "Proto3.v <-> v3 transaction / configuration / mastership reconcilers over the v3 stores")
     vlib.std_coverage(ctx, res,
@@ -50,10 +50,12 @@ def sharded_pipeline(ctx, exe, mcheck, shards, scen, steps):
         if k == 0:
             args += ["-corpus", os.path.join(vlib.ROOT, "corpus", "c20.tsv")]
         rc, so, se = vlib.sh2(args, timeout=1500)
+        if rc != 0:  # one retry: the in-process gRPC servers time out on an overloaded machine
+            rc, so, se = vlib.sh2(args, timeout=1500)
         if rc != 0:
             raise vlib.CheckError("harness %s (shard %d) failed rc=%s\n%s\n%s" % (exe, k, rc, so[-500:], se[-3000:]))
         return so
-    with ThreadPoolExecutor(max_workers=6) as ex:
+    with ThreadPoolExecutor(max_workers=4) as ex:
         outs = list(ex.map(one, range(shards)))
     so = "".join(outs)
     open(os.path.join(ctx.work, "lines.tsv"), "w").write(so)
